@@ -27,8 +27,12 @@ def key_fn(case, obs, verdict):
     dims = ""
     if len(f) > 1 and "@" in f[1]:
         dims += "+sched"
+    if len(f) > 1 and "!" in f[1]:
+        dims += "+release"  # decoder-level run: consumed ammo handed back with Decoder.Release
     if len(f) > 1 and "^" in f[1]:
         dims += "+cfg"      # provider configured with default headers
+    if len(f) > 1 and "~" in f[1]:
+        dims += "+mw"       # provider with middlewares
     if any(t[:2] in ("R:", "H:") and len(t.split(":")) > 2 and (len(t.split(":")[1]) + len(t.split(":")[2])) // 2 > 4000 for t in f[4:]):
         dims += "+longline"
     nreq = sum(1 for t in f[4:] if t[:2] in ("R:", "E:"))
